@@ -7,7 +7,7 @@ for t in $tiers; do
   for p in $(jq -r '.checks[].property_id' MANIFEST.json); do
     out=$(./check.sh $p $t 2>&1); code=$?
     line=$(echo "$out" | grep -E "^$p $t:" | cut -c1-150)
-    st=$(echo "$out" | grep -E "^selftest" | sed 's/selftest [A-Z0-9]*: //' | cut -c1-80)
+    st=$(echo "$out" | grep -E "^selftest" | sed 's/selftest [A-Z0-9]*: //' | cut -c1-60 | tr '\n' ';')
     if [ $code -ne 0 ]; then bad=$((bad+1)); echo "!! exit=$code $line"; echo "$out" | grep -E "violated:|UNDECIDED|VIOLATION|SELFTEST" | cut -c1-240 | head -5
     else echo "ok $line ${st:+| $st}"; fi
   done
